@@ -126,6 +126,7 @@ type FuncGen struct {
 	props       []string
 	resultNames []string
 	sentGhost   bool
+	copyOut     *[]func()
 	retStates   int
 }
 
@@ -133,6 +134,12 @@ func (g *FuncGen) emit(text string) { g.items = append(g.items, Item{text}) }
 
 func (g *FuncGen) def(prefix, sort, expr string) string {
 	name := q(g.sc.fresh(prefix))
+	if sort == "Slice" || sort == "Iface" || strings.HasPrefix(sort, "(Array") || strings.HasPrefix(sort, "|S:") {
+		// structured values may end up inside quantifier patterns: name them with a declared constant
+		g.emit(fmt.Sprintf("(declare-const %s %s)", name, sort))
+		g.emit(fmt.Sprintf("(assert (= %s %s))", name, expr))
+		return name
+	}
 	g.emit(fmt.Sprintf("(define-fun %s () %s %s)", name, sort, expr))
 	return name
 }
@@ -289,8 +296,17 @@ func (g *FuncGen) set(key, term string) {
 
 // newVersion defines a new version of a component/cell as expr.
 func (g *FuncGen) update(key, expr string) {
-	name := g.def(key, g.keySort(key), expr)
-	g.set(key, name)
+	g.set(key, g.defState(key, expr))
+}
+
+// defState names a new version of a state key.  Heap components (arrays) get a declared constant
+// (usable inside quantifier patterns); scalars and cells a define-fun.
+func (g *FuncGen) defState(key, expr string) string {
+	srt := g.keySort(key)
+	if strings.HasPrefix(srt, "(Array") {
+		return g.defConst(key, srt, expr)
+	}
+	return g.def(key, srt, expr)
 }
 
 func (g *FuncGen) havoc(key string) string {
@@ -863,7 +879,7 @@ func (g *FuncGen) mergeStates(preds []*ssa.BasicBlock, b *ssa.BasicBlock) (*Stat
 		for i := len(ps) - 2; i >= 0; i-- {
 			expr = fmt.Sprintf("(ite %s %s %s)", g.edges[[2]int{ps[i].Index, b.Index}], g.get(g.out[ps[i].Index], k), expr)
 		}
-		st.m[k] = g.def(k, g.keySort(k), expr)
+		st.m[k] = g.defState(k, expr)
 	}
 	return st, reach
 }
